@@ -40,7 +40,7 @@ ROBUST = os.path.join(SPECS, "robust")
 NPROC = min(16, os.cpu_count() or 4)
 
 # quick tier: faults sampled per (seed, class, kind) stratum
-QUICK_PER_STRATUM = {"value": 3, "payload": 14, "file": 60, "xrefent": 2}
+QUICK_PER_STRATUM = {"value": 3, "payload": 10, "file": 40, "xrefent": 2}
 
 
 # ------------------------------------------------------------------------------------------------ Faults.tla
@@ -166,6 +166,7 @@ def campaign(ck, faults, label):
     outcomes = collections.Counter()
     worst = (0.0, None)
     n = 0
+    sampled = set()
     ctx = mp.get_context("fork")
     with ctx.Pool(NPROC, initializer=_init_worker) as pool:
         for res in pool.imap_unordered(_work, chunks, chunksize=1):
@@ -188,7 +189,9 @@ def campaign(ck, faults, label):
                     if len(d[1]) < 3:
                         d[1].append({"seed": name, "fault": fd, "entry": e, "observed": detail, "lines": lines,
                                      "input_bytes": dlen})
-                if n % 4000 == 1:
+                worst_oc = max((oc.split(":")[0] for (_, oc, _, _) in rows), key=["ok", "family", "leak", "recursion", "hang"].index)
+                if (fd["cls"], worst_oc) not in sampled and len(sampled) < 8:
+                    sampled.add((fd["cls"], worst_oc))
                     ck.sample({"seed": name, "fault": fd, "input_bytes": dlen,
                                "outcomes": [[e, oc, lines] for (e, oc, lines, _) in rows]})
     for key in sorted(defects):
